@@ -195,7 +195,7 @@ namespace
          {30, 10, 4, 2, 20, 0, 6, 8, 3, 6, 2, 3, 3, 2, 3, 1, 0, 2, 4, 2, 0, 4, 0, 0, 0, 0, 0, 0, 0}, 200, true,
          ">=3 upstream blocks acquired and one of: a shrink_to_fit with cached blocks / a move or swap "
          "with >=2 blocks / an injected failure at k>=2 / destruction with live allocations"},
-        {"C06", O_CORE | O_UNWIND, FB(F_STACK),
+        {"C06", O_CORE | O_UNWIND | O_NOREPORT, FB(F_STACK),
          {40, 10, 6, 2, 4, 0, 14, 10, 0, 4, 0, 1, 1, 0, 0, 3, 0, 0, 4, 0, 0, 0, 8, 0, 0, 0, 0, 0, 0}, 200, false,
          "an unwind that drops >=1 block with >=2 nested markers alive and a replay of >=3 requests"},
         {"C07", O_CORE | O_ITER, FB(F_ITER),
